@@ -98,6 +98,11 @@ ContentOfRoot(r) ==
   ELSE IF \E v \in DOMAIN sroot : sroot[v] = r THEN scont[CHOOSE v \in DOMAIN sroot : sroot[v] = r]
   ELSE EmptyContent
 
+RECURSIVE ApplyAll(_, _, _)
+ApplyAll(c, kvs, i) ==
+  IF i > Len(kvs) THEN c
+  ELSE ApplyAll(IF kvs[i][2] = "" THEN DeleteResp(c, kvs[i][1]).c ELSE InsertResp(c, kvs[i][1], kvs[i][2]).c, kvs, i + 1)
+
 Step(e) ==
   LET g2 == IF "nodes" \in DOMAIN e THEN AddRows(kids, e.nodes) ELSE kids IN
   CASE e.op = "reset" ->
@@ -124,6 +129,12 @@ Step(e) ==
          IN  [Base EXCEPT !.tc = ntc, !.pobs = NextObs(e), !.kids = g2, !.stale = stl,
                           !.f = Flag(failed \/ e.res = r.res, "res") \cup Flag(e.res # "panic", "panic")
                                 \cup LiveFlags(e, ntc, {e.t}, stl)]
+    \* composite action: a sequence of inserts/deletes (value "" = delete) of one trie in a single event
+    [] e.op = "bulk" ->
+         LET ntc == FnPut(tc, e.t, ApplyAll(tc[e.t], e.kvs, 1))
+             stl == IF e.t = 0 /\ 0 \in DOMAIN ObsOf(e) /\ ObsOf(e)[0].root # pobs[0].root THEN (DOMAIN tc) \ {0} ELSE stale
+         IN  [Base EXCEPT !.tc = ntc, !.pobs = NextObs(e), !.kids = g2, !.stale = stl,
+                          !.f = Flag(e.res = "ok", "res") \cup LiveFlags(e, ntc, {e.t}, stl)]
     [] e.op = "merge" ->
          LET c == e.t
              same  == pobs[c].root = pobs[0].root
